@@ -255,6 +255,27 @@ def run(ctx):
         finally:
             it.hooks.pop("fnname:_md_table_to_ss_structure", None)
         r2.check(keys_m <= hdr_m and len(keys_m) == 2, f"md_to_dict:header row vs row keys[{hdr_!r}]", "every key of a data row is a key of the header row", mt_loc(ctx), why_fail=f"row keys {sorted(keys_m)} header {sorted(hdr_m)}")
+    # the per-cell cleaners of the two Excel readers agree with the text readers: text is trimmed, a cell of blanks is no
+    # cell, typed values are spelled as text
+    XT = ExtVal("xlrd.XL_CELL_TEXT")
+    XN = ExtVal("xlrd.XL_CELL_NUMBER")
+    for cname_, fq_ in (("xlsx_clean_cell", "pyxform.xls2json_backends:xlsx_to_dict.xlsx_clean_cell"), ("xls_clean_cell", "pyxform.xls2json_backends:xls_to_dict.xls_clean_cell")):
+        fcc = repo.find_func(fq_)
+        if fcc is None:
+            r2.note(f"{cname_} is no longer a nested helper of its reader; per-cell cleaning is judged through the readers only")
+            continue
+        for desc_c, val_c, ctype_c, want_c in (("padded text", "  age ", XT, "age"), ("text with inner spaces", " a  b ", XT, "a  b"), ("only blanks", "   ", XT, None), ("empty", "", XT, None), ("none", None, XT, None),
+                                               ("integral number", 3.0, XN, "3"), ("tab-padded text", "\ttext\n", XT, "text")):
+            it.reset([])
+            cell_c = Obj(None, {"value": val_c, "ctype": ctype_c}, name="cell")
+            try:
+                if cname_ == "xlsx_clean_cell":
+                    got_c = it.call_function(fcc, [cell_c, 2, "type"], {}, None, fcc.node)
+                else:
+                    got_c = it.call_function(fcc, [Obj(None, {"datemode": 0}, name="wb"), Obj(None, {"name": "survey"}, name="sheet"), cell_c, 2, "type"], {}, None, fcc.node)
+            except Raised as e:
+                got_c = f"raises {e.exc_name}"
+            r2.check(got_c == want_c, f"{cname_}[{desc_c}]", f"-> {want_c!r}", fcc.loc(), why_fail=repr(got_c))
     spacer_column_obligations(ctx, r2, "C12.R2")
     normal_sheet_obligations(ctx, r2, "C12.R2")
     # md
